@@ -329,7 +329,8 @@ func isLocalKey(k model.Key) bool {
 
 // describe returns the tokens appended to `kv <name> <variant>`.
 func describe(e *entry, v int) string {
-	ok := passesValidation(e, v)
+	// an INVALID-BY-CONSTRUCTION variant is a delete for the model whatever the real filter says
+	ok := passesValidation(e, v) && !e.invalid[v]
 	sn := shortName(e)
 	switch key := e.key.(type) {
 	case model.WorkloadEndpointKey:
